@@ -580,12 +580,16 @@ fn restart_step(case: &Case, xold: f64, yold: &[f64], x: f64, ts: &[f64]) -> Opt
     // so that code special-casing the last step of a run cannot hide in both
     let xe = x + 2.0 * h;
     let (rt, at) = (tol(&case.rtol, case.tol_vec), tol(&case.atol, case.tol_vec));
+    // the fresh solver reports to the same hook sink: set the recorded run's pending events aside and drop the probe's
+    let pending = ivp::verif_trace::stop();
     let r = catch(|| match case.method.as_str() {
         "RK4" => { let s = RK4::builder().dense_output(true).build(); s.solve(&p, xold, yold, xe, h, Some(&mut g)).is_ok() }
         "RK23" => RK23::builder().first_step(h).dense_output(true).build().solve(&p, xold, yold, xe, rt, at, Some(&mut g)).is_ok(),
         "DOPRI5" => DOPRI5::builder().first_step(h).dense_output(true).build().solve(&p, xold, yold, xe, rt, at, Some(&mut g)).is_ok(),
         _ => DOP853::builder().first_step(h).dense_output(true).build().solve(&p, xold, yold, xe, rt, at, Some(&mut g)).is_ok(),
     });
+    ivp::verif_trace::start();
+    for (tag, v) in pending { ivp::verif_trace::emit(tag, v); }
     // only a fresh run whose first accepted step is the same step is comparable
     if r.ok() == Some(true) && g.steps == 1 && g.out.len() == ts.len() && (g.xs - x).abs() <= 4.0 * f64::EPSILON * x.abs().max(xold.abs()) { Some(g.out) } else { None }
 }
